@@ -37,9 +37,9 @@ type dgSite struct {
 	root   ast.Stmt // the statement of the entry function this site was reached from (the site itself at depth 0)
 }
 
-// dgDefs is singleDefs plus the parallel definition `a, b := x, y` (as many values as names): each name gets its value.
-func dgDefs(fn *ast.FuncDecl) *defTable {
-	t := singleDefs(fn)
+// dgDefs is singleDefsWith (locals and package-level constants) plus the parallel definition `a, b := x, y` (as many values as names): each name gets its value.
+func dgDefs(fn *ast.FuncDecl, consts map[string]ast.Expr) *defTable {
+	t := singleDefsWith(fn, consts)
 	ast.Inspect(fn.Body, func(n ast.Node) bool {
 		as, ok := n.(*ast.AssignStmt)
 		if !ok || as.Tok != token.DEFINE || len(as.Lhs) < 2 || len(as.Lhs) != len(as.Rhs) {
@@ -61,7 +61,7 @@ func dgDefs(fn *ast.FuncDecl) *defTable {
 	return t
 }
 
-func dgSites(funcs map[string]*ast.FuncDecl, entry *ast.FuncDecl, depth int) []dgSite {
+func dgSites(funcs map[string]*ast.FuncDecl, consts map[string]ast.Expr, entry *ast.FuncDecl, depth int) []dgSite {
 	var out []dgSite
 	onStack := map[*ast.FuncDecl]bool{}
 	var rec func(f *dgFrame, outer []cond, root ast.Stmt, d int)
@@ -106,12 +106,12 @@ func dgSites(funcs map[string]*ast.FuncDecl, entry *ast.FuncDecl, depth int) []d
 				for i, p := range ps {
 					sub[p] = f.norm(ce.Args[i])
 				}
-				rec(&dgFrame{callee, dgDefs(callee), sub}, all, r, d-1)
+				rec(&dgFrame{callee, dgDefs(callee, consts), sub}, all, r, d-1)
 				return true
 			})
 		})
 	}
-	rec(&dgFrame{entry, dgDefs(entry), nil}, nil, nil, depth)
+	rec(&dgFrame{entry, dgDefs(entry, consts), nil}, nil, nil, depth)
 	return out
 }
 
@@ -294,7 +294,7 @@ func genHeaderSync(repo string) (string, error) {
 	if fn == nil {
 		return "", fmt.Errorf("%s: func %s not found", hsDir, fnName)
 	}
-	sites := dgSites(funcs, fn, 3)
+	sites := dgSites(funcs, pkgConsts(repo, hsDir), fn, 3)
 
 	// (1) the count condition: innermost guard of an error return that compares b with p
 	type rej struct {
